@@ -460,7 +460,7 @@ def suite_fault(tier, seed):
         def one(job):
             cfg, params = job
             md, info = vecpipe.mc_export(d, cfg.model(), params, cfg.name)
-            script, finfo = vecpipe.fault_script(md, max_probes=30000 if tier == 'thorough' else 6000, seed=seed)
+            script, finfo = vecpipe.fault_script(md, max_probes=30000 if tier == 'thorough' else 4000, seed=seed)
             r = run_cfg_script(d, cfg, script, 'faults', batch=300)
             r['mc'] = info
             r['fault_info'] = finfo
@@ -675,7 +675,7 @@ def suite_setfault(tier, seed):
             cfg, params = job
             md, info = setpipe.smc_export(d, cfg.model(), params, cfg.name)
             script, finfo = vecpipe.fault_script(
-                md, max_probes=25000 if tier == 'thorough' else 5000, seed=seed, label_fn=setpipe.slabel_line,
+                md, max_probes=25000 if tier == 'thorough' else 3500, seed=seed, label_fn=setpipe.slabel_line,
                 epilogue=lambda c: ['?insert %d 0 1 0 0 0 - 0 0' % c, '?eraseKey %d 0 1 0 0 0 - 0 0' % c, '?clear %d 0 0 0 0 0 - 0 0' % c],
                 no_fault_ops=SET_NO_FAULT)
             r = run_set_script(d, cfg, script, 'faults', batch=300)
@@ -698,8 +698,10 @@ RELEVANT_STAT = {'C20': 'constOps', 'C16': 'ops', 'C15': 'ops', 'C03': 'ops', 'C
 def make_replay(prop, r, v):
     d = workdir('replay')
     path = os.path.join(d, '%s_%s_%s_%d.json' % (prop, r['config'], r['tag'], v['l']))
-    labels = execution_slice(r['trace'], v['l'])
-    ev = read_lines(r['trace'], [v['l']]).get(v['l'], '')
+    # (a run that was aborted - e.g. by ThreadSanitizer - leaves no recording)
+    have = bool(r.get('trace')) and os.path.exists(r['trace'])
+    labels = execution_slice(r['trace'], v['l']) if have else []
+    ev = read_lines(r['trace'], [v['l']]).get(v['l'], '') if have else ''
     json.dump(dict(property=prop, config=r['config'], suite_kind=r.get('kind'), line=v['l'], why=v['why'], labels=labels,
                    event=ev[:4000]), open(path, 'w'), indent=1)
     return path, (labels[-1] if labels else None)
@@ -952,6 +954,48 @@ def suite_matrix(tier, seed):
                         models.append(info)
                 sscripts[ty][kind + '_path'] = path
 
+        # heterogeneous pair (different size_types: swap2 has separate pre-C++17 / C++17 code for the size words): the full
+        # harness needs C++17, so this family covers the {c++17, c++20} x {NDEBUG, assertions} x {-O0, -O2} cells
+        hcfg = ImplCfg('c16h_s2u8_v', 'TR', 'amcled', [('small', 2, 'u8'), ('vector', 0, 'u32')])
+        hparams = dict(Vals=[1, 2], MaxLen=3, MaxCnt=1, Its=['ptr'], RLens=[0, 1], WalkLen=300, Alias=False,
+                       Ops='{"swap2", "ctorDefault", "ctorCountVal", "pushBack", "popBack", "clear", "reserve", "reserveBig", "shrinkToFit", "destroy"}')
+        hmd, hinfo = vecpipe.mc_export(d, hcfg.model(), hparams, hcfg.name)
+        models.append(hinfo)
+        hcells = sorted(set((c[0], c[1], c[3], c[4]) for c in cells if c[1] in ('c++17', 'c++20')))
+        if tier == 'quick':
+            hcells = [('g++', 'c++17', False, '-O0'), ('g++', 'c++17', True, '-O2'), ('g++', 'c++20', False, '-O2'), ('g++', 'c++20', True, '-O0')]
+
+        def het(cell):
+            comp, std, ndebug, opt = cell
+            name = 'c16h_%s_%s_%s_%s' % (comp.replace('+', 'p'), std.replace('+', 'p'), 'nd' if ndebug else 'as', opt[1:])
+            binary = os.path.join(workdir(d, 'bin'), name)
+            defs = [x for x in hcfg.defines() if not x.startswith('CFG_NAME=')] + ['CFG_NAME="c16h_s2u8_v"']
+            try:
+                vlib.build(os.path.join(vlib.HARNESS, 'vec_main.cpp'), binary, defs, std=std, opt=opt, extra=['-DNDEBUG'] if ndebug else [], compiler=comp)
+            except InfraError as e:
+                return dict(name=name, cell=cell, ty='h', build_error=str(e)[-1500:])
+            trace = os.path.join(workdir(d, 'traces'), name + '_common.ndjson')
+            rc2, out2, dt2 = vlib.run([binary, os.path.join(hmd, 'walks.script'), trace, '200'], timeout=900)
+            if rc2 != 0:
+                return dict(name=name, cell=cell, ty='h', traces=dict(common=dict(trace=trace, crashed='rc=%d %s' % (rc2, out2[-300:]))))
+            v = vecpipe.validate_vec(d, trace, name)
+            v['trace'] = trace
+            # compared across cells as the observable results only: label, return value / exception, and per container
+            # existence, size, emptiness, capacity, inline flag and values (address tokens depend on which addresses malloc
+            # happens to reuse, the configuration line names the language standard)
+            norm = trace + '.norm'
+            with open(trace) as fi, open(norm, 'w') as fo:
+                for i, ln in enumerate(fi):
+                    if i == 0:
+                        continue
+                    e = json.loads(ln)
+                    if e.get('e') == 'op':
+                        e = dict(e='op', lbl=e['lbl'], ret=e['ret'],
+                                 obs=[{k: o.get(k) for k in ('ex', 'size', 'empty', 'cap', 'inl', 'vals', 'maxsz')} for o in e['obs']])
+                    fo.write(json.dumps(e, sort_keys=True) + '\n')
+            v['cmp'] = norm
+            return dict(name=name, cell=cell, ty='h', traces=dict(common=v))
+
         def cellname(cell):
             comp, std, extras, ndebug, opt = cell
             return '%s_%s_%s_%s_%s' % (comp.replace('+', 'p'), std.replace('+', 'p'), 'x' if extras else 'p', 'nd' if ndebug else 'as', opt[1:])
@@ -983,7 +1027,8 @@ def suite_matrix(tier, seed):
                 v['trace'] = trace
                 res['traces'][kind] = v
             return res
-        runs = pmap(one, [(c, 'vec', t) for c in cells for t in types] +
+        hruns = pmap(het, hcells, workers=4)
+        runs = hruns + pmap(one, [(c, 'vec', t) for c in cells for t in types] +
                     [(c, 'set', t) for c in cells for t in set_types if not (t == 2 and c[1] in ('c++11', 'c++14'))], workers=8)
         # byte-for-byte comparison of the transcripts across cells (config line excluded)
         import hashlib
@@ -993,7 +1038,7 @@ def suite_matrix(tier, seed):
             for kind, v in rr.get('traces', {}).items():
                 if 'crashed' in v:
                     continue
-                with open(v['trace'], 'rb') as f:
+                with open(v.get('cmp', v['trace']), 'rb') as f:
                     digests[(rr['ty'], kind, rr['name'])] = hashlib.sha256(f.read()).hexdigest()
         for rr in runs:
             viol = []
@@ -1015,8 +1060,9 @@ def suite_matrix(tier, seed):
                 ref = sorted(n for (ty, kd, n) in digests if ty == rr['ty'] and kd == kind)[0]
                 if digests[(rr['ty'], kind, rr['name'])] != digests[(rr['ty'], kind, ref)]:
                     # first differing line
-                    a = open(v['trace']).read().split('\n')
-                    b = open(os.path.join(d, 'traces', '%s_%s.ndjson' % (ref, kind))).read().split('\n')
+                    sfx = '.norm' if 'cmp' in v else ''
+                    a = open(v['trace'] + sfx).read().split('\n')
+                    b = open(os.path.join(d, 'traces', '%s_%s.ndjson%s' % (ref, kind, sfx))).read().split('\n')
                     ln = next((i for i in range(0, min(len(a), len(b))) if a[i] != b[i]), min(len(a), len(b)))
                     viol.append(dict(p='C16', l=ln + 1, why='[%s] transcript differs from cell %s at line %d' % (kind, ref, ln + 1)))
             tr = next((v['trace'] for v in rr.get('traces', {}).values() if 'trace' in v), '')
@@ -1175,13 +1221,18 @@ PROP_SUITES = {
 }
 
 
+# the quick tier of the properties that span many suites leaves the most expensive redundant ones to the thorough tier
+# (every suite still runs in the quick tier under the properties it matters most for)
+PROP_SUITES_QUICK = dict(PROP_SUITES, C02=['vec', 'fault', 'sets'], C06=['vec', 'swap2', 'fault', 'sets'], C14=['vec', 'sets', 'static'])
+
+
 def run_property(prop, tier, seed):
     SUITE_FN.update(vec=suite_vec, swap2=suite_swap2, fault=suite_fault, limit=suite_limit, growth=suite_growth, sets=suite_sets,
                     setfault=suite_setfault, bigsets=suite_bigsets, memalgo=suite_memalgo, static=suite_static, matrix=suite_matrix, readers=suite_readers, words=suite_words)
     if prop not in PROP_SUITES:
         raise InfraError('no check for property %s' % prop)
     results, wall, cached, extra = [], 0.0, True, {}
-    for name in PROP_SUITES[prop]:
+    for name in (PROP_SUITES_QUICK if tier == 'quick' else PROP_SUITES)[prop]:
         r = SUITE_FN[name](tier, seed)
         results += r['results']
         wall += r.get('wall', 0)
@@ -1235,7 +1286,7 @@ def run_property(prop, tier, seed):
                         'executions in which a failure was actually injected and the outcome judged by TLC')
     return dict(violations=viols, model_errors=merr, evidence=ev,
                 summary='suites=%s configs=%d ops=%d transitions=%d drift=%d' % (
-                    '+'.join(PROP_SUITES[prop]), len(results), cov['ops_validated'], cov['transitions'], cov['design_drift']))
+                    '+'.join((PROP_SUITES_QUICK if tier == 'quick' else PROP_SUITES)[prop]), len(results), cov['ops_validated'], cov['transitions'], cov['design_drift']))
 
 
 def all_vec_configs():
